@@ -5,7 +5,7 @@ import json, os, glob, shutil
 V = os.path.dirname(os.path.dirname(os.path.abspath(__file__)))
 SO = '/tmp/seed-out'
 rows = []
-for d in sorted(glob.glob(os.path.join(SO, 'C[0-9][0-9]-[0-9]'))):
+for d in sorted(glob.glob(os.path.join(SO, 'C[0-9][0-9]-[0-9]*'))):
     sid = os.path.basename(d)
     runs = glob.glob(os.path.join(SO, sid + '.result')) + sorted(glob.glob(os.path.join(SO, sid + '.r[0-9]*')), key=lambda x: int(x.rsplit('.r', 1)[1]))
     conf, checks = None, {}
